@@ -422,18 +422,19 @@ void gen_wrapper(rng &r, const std::string &tier)
                 P("sweep %s %u %016llx %llu\n", KNAME[K2[ki]], B2[bi], (unsigned long long)extend(lo, 32, K2[ki] == I32), (unsigned long long)CH);
     // round 3b: bases 2, 8 and 36 over the whole 32-bit space in windows of 2^22 values, in each selected window the
     // seed's own 2^18 consecutive values (the 16 seeds of a run together: the whole window).  Base 8 and base 36:
-    // every second window (round 3: every eighth) - VERIF_SEED s and s+1 together cover EVERY 32-bit value, signed
-    // and unsigned; base 2 (32-character texts, three times the cost per value): every fourth window - four
-    // consecutive VERIF_SEEDs together are exhaustive.  (bin/check runs the seeds VERIF_SEED*1000 + 0..15.)
-    // All of it in one run costs 12 CPU-minutes per seed; on the shared machine that did not fit the deadline.
+    // every fourth window (round 3: every eighth) - four consecutive VERIF_SEEDs together cover EVERY 32-bit value,
+    // signed and unsigned; base 2 (32-character texts, three times the cost per value): every eighth window as in
+    // round 3, but now chosen so that eight consecutive VERIF_SEEDs together are exhaustive.  (bin/check runs the
+    // seeds VERIF_SEED*1000 + 0..15.)  The divisors are the only thing to change for more: everything in one run
+    // costs 12 CPU-minutes per seed, which the shared machine (load average 60-250 during round 3b) did not allow.
     static const unsigned B3[2] = {8u, 36u};
     for (int ki = 0; ki < 2; ki++)
         for (int bi = 0; bi < 2; bi++)
             for (uint64_t win = 0; win < (1ull << 32); win += (1ull << 22))
-                if ((win >> 22) % 2 == (g_seed / 1000 + bi + ki) % 2)
+                if ((win >> 22) % 4 == (g_seed / 1000 + bi + 2 * ki) % 4)
                     P("sweep %s %u %016llx %llu\n", KNAME[K2[ki]], B3[bi], (unsigned long long)extend(win + part * CH, 32, K2[ki] == I32), (unsigned long long)CH);
     for (int ki = 0; ki < 2; ki++)
         for (uint64_t win = 0; win < (1ull << 32); win += (1ull << 22))
-            if ((win >> 22) % 4 == (g_seed / 1000 + 2 * ki) % 4)
+            if ((win >> 22) % 8 == (g_seed / 1000 + 4 * ki) % 8)
                 P("sweep %s 2 %016llx %llu\n", KNAME[K2[ki]], (unsigned long long)extend(win + part * CH, 32, K2[ki] == I32), (unsigned long long)CH);
 }
